@@ -94,9 +94,13 @@ def best_first(ctx: Ctx, f, astar: bool):
     for k, r in enumerate(sites):
         a2 = gv.guard_atoms(r.node)
         if "INFEASIBLE" in r.statuses:
-            ctx.ob("C11-O2", "R2 BUDGET-EXIT", f, "INFEASIBLE only when the frontier ran out with budget left", atom_of("iterations < max_iter") in a2 and r.node.loop is None, f"{sorted(a2)}", node=r.call)
+            ctx.ob("C11-O2", "R2 BUDGET-EXIT", f, "INFEASIBLE only when the frontier ran out", (f"F:{heap}" in a2 or atom_of("iterations < max_iter") in a2) and r.node.loop is None, f"{sorted(a2)}", node=r.call)
         if "MAX_ITER" in r.statuses:
-            ctx.ob("C11-O2", "R1 STATUS-GUARD", f, "MAX_ITER only under the exhausted budget", atom_of("iterations >= max_iter") in a2, f"{sorted(a2)}", node=r.call)
+            ctx.ob("C11-O2", "R1 STATUS-GUARD", f, "MAX_ITER only while a node still waits in the frontier", f"T:{heap}" in a2 and r.node.loop is None, f"{sorted(a2)}: told from INFEASIBLE by the counter alone, a search whose frontier ran empty on the last allowed iteration reports MAX_ITER for a goal it has shown to be unreachable (ledger row 79)", node=r.call)
+            drains = [w for w in own_nodes(f.node) if isinstance(w, ast.While) and "max_iter" not in names_in(w.test)]
+            last = len(key.elts) - 1
+            okd = len(drains) == 1 and canon(drains[0].test) in {canon(ast.parse(f"{heap} and {heap}[0][{k_}] in closed", mode="eval").body) for k_ in (-1, last)} and [ast.unparse(x) for x in drains[0].body] == [f"heappop({heap})"] and not drains[0].orelse and cfg.dominates(cfg.stmt_node_containing(drains[0].test), r.node)
+            ctx.ob("C11-O2", "R2 BUDGET-EXIT", f, "entries of closed nodes are dropped before the frontier is asked whether a node still waits", okd, f"{[ast.unparse(w.test) for w in drains]}: a heap holding only leftovers of closed nodes is an exhausted frontier, and counting them as waiting nodes reports MAX_ITER for a settled question", node=drains[0] if drains else r.call)
     if astar:
         st = s.arg("status")
         d = [x.value for x in own_nodes(f.node) if isinstance(st, ast.Name) and isinstance(x, ast.Assign) and ast.unparse(x.targets[0]) == st.id]
@@ -104,7 +108,7 @@ def best_first(ctx: Ctx, f, astar: bool):
         ctx.ob("C11-O2", "R1 STATUS-GUARD", f, "astar claims OPTIMAL only for weight == 1.0", ok, "", node=s.call)
     else:
         ctx.ob("C11-O2", "R1 STATUS-GUARD", f, "dijkstra success is OPTIMAL (default status)", s.statuses == frozenset({"OPTIMAL"}), "", node=s.call)
-    loop = [n for n in cfg.nodes if n.kind == "test" and n.note == "while"]
+    loop = [n for n in cfg.nodes if n.kind == "test" and n.note == "while" and "max_iter" in names_in(n.ast)]
     ctx.ob("C11-O2", "R2 BUDGET-EXIT", f, "search loop runs while the frontier is non-empty and budget remains", len(loop) == 1 and canon(loop[0].ast) == canon(ast.parse(f"{heap} and iterations < max_iter", mode="eval").body), "", node=f.node)
 
 
@@ -173,7 +177,10 @@ def check_bfs_dfs(ctx: Ctx):
                 ctx.ob("C11-O2", "R2 BUDGET-EXIT", f, f"without a goal the visited set is labelled OPTIMAL only if the {cont} ran empty, MAX_ITER otherwise", okv, f"status `{ast.unparse(st) if st is not None else 'default (OPTIMAL)'}`: the loop also ends on max_iter with nodes still waiting, and the partial set would pass for the reachable set", node=s.call)
             if "INFEASIBLE" in s.statuses:
                 a2 = gv.guard_atoms(s.node)
-                ctx.ob("C11-O2", "R2 BUDGET-EXIT", f, "INFEASIBLE only when the frontier ran out with budget left", atom_of("iterations < max_iter") in a2 and "T:is_goal" in a2, f"{sorted(a2)}", node=s.call)
+                ctx.ob("C11-O2", "R2 BUDGET-EXIT", f, "INFEASIBLE only when the frontier ran out", (f"F:{cont}" in a2 or atom_of("iterations < max_iter") in a2) and "T:is_goal" in a2 and s.node.loop is None, f"{sorted(a2)}", node=s.call)
+            if "MAX_ITER" in s.statuses and ast.unparse(s.arg("solution")) == "None":
+                a2 = gv.guard_atoms(s.node)
+                ctx.ob("C11-O2", "R1 STATUS-GUARD", f, "MAX_ITER for a goal not found only while a node still waits in the frontier", f"T:{cont}" in a2 and s.node.loop is None, f"{sorted(a2)}: told from INFEASIBLE by the counter alone, a search whose {cont} ran empty on the last allowed iteration reports MAX_ITER for a goal it has shown to be unreachable (ledger row 79)", node=s.call)
     rp = ctx.func("utils.helpers", "reconstruct_path")
     t = ast.unparse(rp.node)
     ctx.ob("C11-O7", "R5 PAIRING", rp, "reconstruction follows parent pointers from the end node and reverses", "while current in parent" in t and "current = parent[current]" in t and "path.reverse()" in t and "path = [current]" in t, "", node=rp.node)
@@ -552,7 +559,29 @@ def _v_astar_tiebreak(tree):
 
 def _v_infeasible_on_budget(tree):
     g = M.find_func(tree, "dijkstra")
-    M.replace_stmt(g, lambda s: isinstance(s, ast.If) and M.src_is(s.test, "iterations >= max_iter"), [])
+    M.replace_stmt(g, lambda s: isinstance(s, ast.If) and M.src_is(s.test, "heap"), [])
+
+
+def _v_max_iter_by_counter(fn, cont):
+    def mut(tree):
+        g = M.find_func(tree, fn)
+        if cont == "heap":
+            M.replace_stmt(g, lambda s: isinstance(s, ast.While) and "max_iter" not in ast.unparse(s.test), [])
+        hits = [n for n in ast.walk(g) if isinstance(n, ast.If) and ast.unparse(n.test) == cont and "MAX_ITER" in ast.unparse(n.body[0])]
+        assert len(hits) == 1, hits
+        hits[0].test = M.expr("iterations >= max_iter")
+
+    return mut
+
+
+def _v_no_drain(tree):
+    g = M.find_func(tree, "dijkstra")
+    M.replace_stmt(g, lambda s: isinstance(s, ast.While) and "max_iter" not in ast.unparse(s.test), [])
+
+
+def _v_drain_everything(tree):
+    g = M.find_func(tree, "astar")
+    M.replace_expr(g, lambda e: M.src_is(e, "heap and heap[0][-1] in closed"), M.expr("heap"))
 
 
 def _v_bf_rounds(tree):
@@ -753,6 +782,12 @@ VARIANTS = [
     M.Variant("astar claims OPTIMAL for any weight", AS, _v_astar_optimal_always, "C11-O2"),
     M.Variant("astar key drops g", AS, _v_astar_tiebreak, "C11-O1"),
     M.Variant("dijkstra answers INFEASIBLE on budget exhaustion", DJ, _v_infeasible_on_budget, "C11-O2"),
+    M.Variant("dijkstra tells MAX_ITER from INFEASIBLE by the counter alone (original defect, ledger row 79)", DJ, _v_max_iter_by_counter("dijkstra", "heap"), "C11-O2"),
+    M.Variant("astar tells MAX_ITER from INFEASIBLE by the counter alone (ledger row 79)", AS, _v_max_iter_by_counter("astar", "heap"), "C11-O2"),
+    M.Variant("bfs tells MAX_ITER from INFEASIBLE by the counter alone (ledger row 79)", BS, _v_max_iter_by_counter("bfs", "queue"), "C11-O2"),
+    M.Variant("dfs tells MAX_ITER from INFEASIBLE by the counter alone (ledger row 79)", BS, _v_max_iter_by_counter("dfs", "stack"), "C11-O2"),
+    M.Variant("dijkstra counts leftover entries of closed nodes as waiting nodes", DJ, _v_no_drain, "C11-O2"),
+    M.Variant("astar empties the whole heap before asking whether a node waits", AS, _v_drain_everything, "C11-O2"),
     M.Variant("bellman_ford runs n-2 rounds", BF, _v_bf_rounds, "C11-O4"),
     M.Variant("bellman_ford detection pass is non-strict", BF, _v_bf_detect_differs, "C11-O4"),
     M.Variant("floyd_warshall intermediate vertex in the middle loop", FW, _v_fw_k_inner, "C11-O5"),
